@@ -614,6 +614,9 @@ def refine_droplet(
     mask = droplet._get_phase_field(phase_field.grid, dtype=bool)
     dilation_iterations = 1 + int(2 * droplet.interface_width)
     mask = ndimage.binary_dilation(mask, iterations=dilation_iterations)
+    if not mask.any():
+        # the droplet does not cover any support point, so there is nothing to fit
+        return droplet
 
     # apply the mask
     data_mask = phase_field.data[mask]
